@@ -372,7 +372,11 @@ def run_check(plugin, tier, seed, replay=None):
     cov = {}
 
     # 1. translate
-    tr = translate.run(plugin.gen)
+    # every Gen file is regenerated from /repo's working tree on every run (2-3 s): the Coq build of one property
+    # reaches generated files of others through shared models, and a stale file left by an earlier run against a
+    # different tree must never be compiled.  Only this property's own generators are obligations of this check.
+    tr_all = translate.run(None)
+    tr = {name: tr_all.get(name) for name in plugin.gen}
     for name, err in tr.items():
         if err:
             broken.append({"kind": "TRANSLATOR_BROKEN", "what": "Gen/%s.v" % name, "detail": err})
@@ -654,7 +658,7 @@ def _work_with(plugin, case):
     if hasattr(plugin, "batch_oracle"):
         exe = _DRIVER_READY.get(plugin.id)
         if exe is None:
-            translate.run(plugin.gen)
+            translate.run(None)
             coq_make(["Extract/%s.vo" % plugin.id])
             exe, _ = build_driver(plugin.id)
             _DRIVER_READY[plugin.id] = exe
